@@ -910,7 +910,7 @@ def run(ctx):
     stats = {}
     for t in operator_pairs():
         cases.append(make_case("pairs", t, p_expression(t), "min"))
-    n_typed, n_untyped, n_dialect = (500, 150, 150) if not big else (6000, 3000, 2500)
+    n_typed, n_untyped, n_dialect = (500, 150, 150) if not big else (9000, 4000, 3000)
     if changed and not big:      # adaptive depth: the mirrored code changed -> three times the quick counts
         n_typed, n_untyped, n_dialect = 1500, 450, 450
     for i in range(n_typed):
